@@ -272,6 +272,82 @@ def mut_return_in_loop(src):
     return replace_once(src, "            if ins == instructions[-1]:\n                continue\n            next_bb = BasicBlock()\n            all_bbs.append(next_bb)\n            # add sequential link\n", "            if ins == instructions[-1]:\n                return\n            next_bb = BasicBlock()\n            all_bbs.append(next_bb)\n            # add sequential link\n")
 
 
+# ---- twin audit (next / prev written for each other, swapped argument order / receiver and argument)
+def mut_first_links_swapped(src):
+    """(t1) first_pass: ins.add_next(prev); prev.add_prev(ins)"""
+    return replace_once(
+        src,
+        "            ins.add_prev(prev)\n            prev.add_next(ins)\n",
+        "            ins.add_next(prev)\n            prev.add_prev(ins)\n",
+    )
+
+
+def mut_second_links_swapped(src):
+    """(t2) second_pass: a jump adds the label as predecessor and itself as the label's successor"""
+    return replace_once(
+        src,
+        "            ins.add_next(labels[ins.label])\n            labels[ins.label].add_prev(ins)\n",
+        "            ins.add_prev(labels[ins.label])\n            labels[ins.label].add_next(ins)\n",
+    )
+
+
+def mut_bb_label_links_swapped(src):
+    """(t3) create_bb, label split: bb.add_prev(next_bb); next_bb.add_next(bb)"""
+    return replace_once(
+        src,
+        "        if isinstance(ins, Label) and len(bb.instructions) != 0:\n            next_bb = BasicBlock()\n            all_bbs.append(next_bb)\n            bb.add_next(next_bb)\n            next_bb.add_prev(bb)\n",
+        "        if isinstance(ins, Label) and len(bb.instructions) != 0:\n            next_bb = BasicBlock()\n            all_bbs.append(next_bb)\n            bb.add_prev(next_bb)\n            next_bb.add_next(bb)\n",
+    )
+
+
+def mut_fourth_over_prev(src):
+    """(t4) fourth_pass iterates over ins.prev"""
+    return replace_once(src, "        for next_ins in ins.next:\n            next_bb = next_ins.bb\n", "        for next_ins in ins.prev:\n            next_bb = next_ins.bb\n")
+
+
+def mut_fourth_links_swapped(src):
+    """(t5) fourth_pass: bb.add_prev(next_bb); next_bb.add_next(bb)"""
+    return replace_once(
+        src,
+        "                assert bb not in next_bb.prev\n                bb.add_next(next_bb)\n                next_bb.add_prev(bb)\n",
+        "                assert bb not in next_bb.prev\n                bb.add_prev(next_bb)\n                next_bb.add_next(bb)\n",
+    )
+
+
+def mut_dfs_over_prev(src):
+    """(t6) identify_subroutine_blocks follows bb.prev"""
+    return replace_once(src, "        for next_bb in bb.next:\n", "        for next_bb in bb.prev:\n")
+
+
+def mut_prune_over_prev(src):
+    """(t7) pruning: the successor loop runs over list(bi.prev)"""
+    return replace_once(src, "            for bnext in list(bi.next):\n", "            for bnext in list(bi.prev):\n")
+
+
+def mut_fourth_test_prev(src):
+    """(t8) fourth_pass: the duplicate test reads bb.prev"""
+    return replace_once(src, "            if next_bb not in bb.next:\n", "            if next_bb not in bb.prev:\n")
+
+
+def mut_bb_gt_args(src):
+    """(a1) create_bb: `1 > len(ins.next)` for `len(ins.next) > 1`"""
+    return replace_once(src, "        if len(ins.next) > 1 or isinstance(ins, Callsub):\n", "        if 1 > len(ins.next) or isinstance(ins, Callsub):\n")
+
+
+def mut_prune_receiver_swapped(src):
+    """(a2) pruning: bi.exit_instr.prev.remove(ins_next) (receiver and argument exchanged)"""
+    return replace_once(src, "                ins_next.prev.remove(bi.exit_instr)\n", "                bi.exit_instr.prev.remove(ins_next)\n")
+
+
+def mut_fourth_receiver_swapped(src):
+    """(a3) fourth_pass: next_bb.add_next(bb); bb.add_prev(next_bb) (receivers and arguments exchanged)"""
+    return replace_once(
+        src,
+        "                assert bb not in next_bb.prev\n                bb.add_next(next_bb)\n                next_bb.add_prev(bb)\n",
+        "                assert bb not in next_bb.prev\n                next_bb.add_next(bb)\n                bb.add_prev(next_bb)\n",
+    )
+
+
 MUTATIONS = [
     ("(i) create_bb: Label splits only if len(ins.prev) > 1", PT, mut_label_prev),
     ("(ii) DFS: break for continue in the successor loop", PT, mut_dfs_break),
@@ -310,6 +386,17 @@ MUTATIONS = [
     ("(s10) setter of Instruction.bb edited", INS, mut_bb_setter),
     ("(s11) try statement in create_bb", PT, mut_while_for),
     ("(s12) return in the loop of create_bb", PT, mut_return_in_loop),
+    ("(t1) TWIN first_pass: add_next / add_prev exchanged", PT, mut_first_links_swapped),
+    ("(t2) TWIN second_pass: add_next / add_prev exchanged", PT, mut_second_links_swapped),
+    ("(t3) TWIN create_bb: add_next / add_prev exchanged", PT, mut_bb_label_links_swapped),
+    ("(t4) TWIN fourth_pass iterates ins.prev", PT, mut_fourth_over_prev),
+    ("(t5) TWIN fourth_pass: add_next / add_prev exchanged", PT, mut_fourth_links_swapped),
+    ("(t6) TWIN DFS follows bb.prev", PT, mut_dfs_over_prev),
+    ("(t7) TWIN pruning loops over bi.prev", PT, mut_prune_over_prev),
+    ("(t8) TWIN fourth_pass: duplicate test reads bb.prev", PT, mut_fourth_test_prev),
+    ("(a1) ARGS create_bb: 1 > len(ins.next)", PT, mut_bb_gt_args),
+    ("(a2) ARGS pruning: bi.exit_instr.prev.remove(ins_next)", PT, mut_prune_receiver_swapped),
+    ("(a3) ARGS fourth_pass: receivers and arguments exchanged", PT, mut_fourth_receiver_swapped),
 ]
 REQUIRED = 4  # the first four rows are the real regressions named in the task
 # a behaviour-preserving rewrite: reported, not required to be caught (the lemma file is tied to the generated text)
